@@ -2,7 +2,7 @@
 (* Trace validation (impl -> spec) for C20.  mila has no container writer, so
    the recorded events are the outputs of the four readers on the generated
    files: {id, c, v, ok, out} with v the packed texture list and out the returned
-   textures [name (code points), w, h, pixels].  An event is accepted iff the
+   textures [key, name (code points), w, h, pixels] (+ mode, via).  An event is accepted iff the
    reader returned Ok and the list is the expected reading of v: same length and
    order, names (TPL: empty), dimensions, and pixel data that is an allowed
    decoding (Pixel!DecodeOK) of each texture's own payload.
@@ -19,11 +19,15 @@ Next == \/ i = 0 /\ i' \in { 0 - k : k \in 1..NB }
         \/ i < 0 /\ i' \in { j \in 1..Len(Rec) : (j % NB) + 1 = 0 - i }
 Spec == Init /\ [][Next]_i
 
-Accept(ev) == ev.ok /\ ValueOK(ev.c, ev.v) /\ ReadOK(ev.c, ev.v, ev.out)
+\* mode "list": the reader's own result; mode "map": the same file read through the layered filesystem's
+\* typed readers (plain and LZ-compressed name), which return the textures keyed by name
+Accept(ev) == /\ ev.ok /\ ValueOK(ev.c, ev.v)
+              /\ IF ev.mode = "map" THEN MapReadOK(ev.c, ev.v, ev.out) ELSE ReadOK(ev.c, ev.v, ev.out)
 
 \* which part of the expected reading fails first
 Why(ev) ==
   IF ~ev.ok THEN "not Ok"
+  ELSE IF ev.mode = "map" THEN "map"
   ELSE IF Len(ev.out) # Len(ev.v) THEN "count"
   ELSE IF \E t \in 1..Len(ev.v) : ev.out[t].name # (IF ev.c = "tpl" THEN <<>> ELSE ev.v[t].name) THEN "name"
   ELSE IF \E t \in 1..Len(ev.v) : ev.out[t].w # ev.v[t].w \/ ev.out[t].h # ev.v[t].h THEN "dimensions"
